@@ -636,6 +636,31 @@ def tdb_rules(ctx, A):
             if ha or hb:
                 g7a, g7b, helper7 = ha, hb, (callee, pg, call)
     ok7 = len(g7a) == 1 and len(g7b) == 1 and len(dsw) == 1
+    # the projection behind 7a: the path of a named type, the element's path for arrays (at any depth), nothing for pointers,
+    # functions and unresolved types
+    pj = P.fns.get('semantic::type_definition::build::get_defaultable_type_path')
+    okpj, detpj = False, 'helper not found'
+    if pj is not None:
+        sw_ = [s_ for s_ in pj.switches() if s_['cond'][0] == 'discr' and strip(s_['cond'][1])[0] == 'arg']
+        if len(sw_) == 1:
+            arms = {}
+            for lab, tgt in sw_[0]['edges']:
+                for x_ in pj.exits():
+                    if pj.dominates(tgt, x_['block']):
+                        for one in lab.split('|'):
+                            arms.setdefault(one, []).append(strip(x_['expr']))
+            def raw_ok(v):
+                return v[0] == 'agg' and v[1].endswith('Option::Some') and strip(v[2][0][1])[0] == 'payload' and strip(v[2][0][1])[2] == 'Raw' and strip(strip(v[2][0][1])[1])[0] == 'arg'
+            def arr_ok(v):
+                return is_call(v, pj.id.split('::')[-1]) and v[1] == pj.id and any(isinstance(y, tuple) and y[0] == 'payload' and y[2] == 'Array' and y[3] == 0 for y in walk(v[2][0]))
+            none_ok = lambda v: v[0] == 'agg' and v[1].endswith('Option::None')
+            okpj = len(arms.get('Raw', [])) == 1 and raw_ok(arms['Raw'][0]) and len(arms.get('Array', [])) == 1 and arr_ok(arms['Array'][0]) and \
+                all(len(arms.get(k_, [])) == 1 and none_ok(arms[k_][0]) for k_ in ('Unresolved', 'ConstPointer', 'MutPointer', 'Function')) and \
+                set(arms) == {'Raw', 'Array', 'Unresolved', 'ConstPointer', 'MutPointer', 'Function'}
+            detpj = {k_: [show(v)[:40] for v in vs] for k_, vs in sorted(arms.items())}
+        else:
+            detpj = 'expected one match on the type'
+    ctx.ob(['C13'], 'R-EXPR', 'G7|defaultable-path-projection', okpj, 'the type whose defaultability decides is the named type itself, the element type for (nested) arrays, none for pointers / functions / unresolved: %s' % (detpj,), loc(pj.span) if pj is not None else where)
     ctx.ob(['C13'], 'R-GUARD', 'G7|defaultable-fields', ok7, 'a defaultable type rejects fields that are not (arrays of) named types and fields whose type is not defaultable%s' % (
         ' (in helper %s)' % short(helper7[0].id) if helper7 else ''), g7a[0].where() if g7a else where)
     if ok7 and helper7 is None:
